@@ -66,11 +66,11 @@ def gen_cases(ctx, rng):
                         cases.append(script_for(sizes, rsize, sched, close_at, mutate=(total % 2 == 0), extra_reads=2))
                         stats["systematic"] += 1
     # random: bigger chunks, odd read sizes, zero-length writes and reads, random schedules
-    nrand = 600 if ctx.tier == "quick" else 6000
+    nrand = 400 if ctx.tier == "quick" else 6000
     for _ in range(nrand):
         nw = rng.range(1, 6)
         big = rng.chance(1, 5)
-        sizes = [rng.range(0 if rng.chance(1, 10) else 1, 200 if big else 24) for _ in range(nw)]
+        sizes = [0 if rng.chance(1, 8) else rng.range(1, 200 if big else 24) for _ in range(nw)]
         rsize = rng.choice([0, 1, 2, 3, 5, 7, 8, 16, 64]) if rng.chance(4, 5) else rng.range(1, 300)
         if 0 in sizes:
             stats["zero_len_write"] += 1
@@ -88,7 +88,7 @@ def gen_cases(ctx, rng):
     nconc = 200 if ctx.tier == "quick" else 3000
     for _ in range(nconc):
         nw = rng.range(1, 12)
-        sizes = [rng.range(1, 40) for _ in range(nw)]
+        sizes = [0 if rng.chance(1, 12) else rng.range(1, 40) for _ in range(nw)]
         cases.append({"writes": make_writes(sizes), "ops": [], "conc": True, "cap": rng.choice([0, 0, 1, 2, 5, 64]),
                       "reads": [rng.range(1, 50) for _ in range(rng.range(1, 4))]})
         stats["concurrent"] += 1
@@ -99,6 +99,8 @@ def gen_cases(ctx, rng):
 def oracle(case, res):
     """returns None if the observed behaviour satisfies the property, else a description"""
     flat = [b for w in case["writes"] for b in w]
+    if res.get("panic"):
+        return "panic or goroutine blocked for ever: " + res["panic"][:120]
     if case.get("conc"):
         if res.get("all", []) != flat:
             return "concurrent run: bytes read differ from bytes written"
@@ -110,11 +112,14 @@ def oracle(case, res):
     closed = False
     got = []
     ri = 0
+    empties = 0   # zero-length chunks made available and not yet accounted to a (0, nil) read
     for op in case["ops"]:
         if op["k"] == "avail":
             for _ in range(op["n"]):
                 if avail < len(case["writes"]):
                     written += case["writes"][avail]
+                    if not case["writes"][avail]:
+                        empties += 1
                     avail += 1
         elif op["k"] == "close":
             closed = True
@@ -132,10 +137,13 @@ def oracle(case, res):
                 return "unexpected error"
             if r["blocked"] and len(got) < len(written):
                 return "read blocked although written data was outstanding (read #%d)" % ri
-            if closed and got == written and op["n"] > 0 and r["err"] == 0 and not r["data"] and ri > 0:
-                # after everything was returned and the writer closed, a read must say EOF
-                # (one read may still return the close as (0 bytes consumed) only via EOF)
-                return "no EOF after close (read #%d)" % ri
+            if closed and got == written and op["n"] > 0 and r["err"] == 0 and not r["data"]:
+                # after everything was returned and the writer closed, a read must say EOF, except
+                # that each zero-length chunk still queued may be consumed by one (0, nil) read
+                if empties > 0:
+                    empties -= 1
+                else:
+                    return "no EOF after close (read #%d)" % ri
     return None
 
 
@@ -157,7 +165,7 @@ def coq_case(case, res):
             acts.append("AClose")
         elif op["k"] == "read":
             acts.append("ARead %d false" % op["n"])
-    obs = ["(%s, %s, %d)" % (C.coq_bool(r["blocked"]), C.coq_zlist(r["data"]), r["err"]) for r in res["reads"]]
+    obs = ["(%s, %s, %d)" % (C.coq_bool(r["blocked"]), C.coq_zlist(r["data"]), r["err"]) for r in (res.get("reads") or [])]
     return "(%s, %s)" % (C.coq_list(acts), C.coq_list(obs))
 
 
@@ -211,6 +219,8 @@ def classify(what):
         return "reader-loses-or-corrupts-bytes"
     if "EOF" in what:
         return "eof-misplaced"
+    if "panic or goroutine" in what:
+        return "panic-or-stuck"
     if "blocked" in what:
         return "read-blocks-with-data-outstanding"
     return "other"
@@ -283,7 +293,7 @@ def run(ctx):
     for i in scripted:
         r = results[i]
         # non-trivial: some read was served partly from the carry (a chunk was split across reads) or blocked
-        if any(rd["blocked"] for rd in r["reads"]) or any(0 < len(rd["data"]) for rd in r["reads"]):
+        if any(rd["blocked"] for rd in (r.get("reads") or [])) or any(0 < len(rd["data"]) for rd in (r.get("reads") or [])):
             nontrivial.add(json.dumps(cases[i], sort_keys=True))
     unext = [k for k, v in getattr(ctx, "extract_meta", {}).items() if k in ("read_early", "writer_copies") and not v.get("extracted")]
     if unext:
